@@ -65,3 +65,14 @@ package smtpconn
 //@   prop C05
 //@ func (*C).ServerName
 //@   prop C05
+// Connect / DirectClose work on the connection object and the client they create / drop (trusted frame).
+//@ func (*C).Connect
+//@   prop C05
+//@   trusted
+//@   requires c != nil
+//@   modifies *c
+//@ func (*C).DirectClose
+//@   prop C05
+//@   trusted
+//@   requires c != nil
+//@   modifies *c, *c.cl
